@@ -69,11 +69,11 @@ type faultCase struct {
 
 func genFault(prop string, r *sim.Rng, i int) *faultCase {
 	c := &faultCase{Prop: prop, K: -1, KFrac: r.Intn(1001)}
-	c.Op = []string{"cmd", "cmd", "getprompt", "interactive", "netcmd", "acquire", "callbacks"}[r.Intn(7)]
+	c.Op = []string{"cmd", "cmd", "getprompt", "interactive", "netcmd", "acquire", "callbacks", "cmds", "deacquire"}[r.Intn(9)]
 	if prop == "C05" {
 		c.Fault = "stall"
 		c.Timeout = r.Pick([]string{"conn", "conn", "perop"})
-		if c.Op == "getprompt" || c.Op == "acquire" || c.Op == "netcmd" {
+		if c.Op == "getprompt" || c.Op == "acquire" || c.Op == "netcmd" || c.Op == "cmds" || c.Op == "deacquire" {
 			c.Timeout = "conn"
 		}
 	} else {
@@ -191,6 +191,8 @@ type faultRun struct {
 	w1       int // ... and after it
 	crashed  string
 	hang     bool
+	privLog  func() []sim.PrivLine
+	preOut   string
 	cbFired  int // callbacks that had run when the first operation returned
 	closed   bool
 	cached   string
@@ -223,7 +225,7 @@ func execFault(c *faultCase, fault bool, k int) *faultRun {
 	if !fault {
 		connTimeout = 3 * time.Second // the dry run only measures the exchange
 	}
-	network_ := c.Op == "netcmd" || c.Op == "acquire"
+	network_ := c.Op == "netcmd" || c.Op == "acquire" || c.Op == "deacquire"
 	var tr *sim.Transport
 	var sendCmd func(cmd string) (string, error)
 	var first func() (string, error)
@@ -265,9 +267,22 @@ func execFault(c *faultCase, fault bool, k int) *faultRun {
 			}
 			return r.Result, nil
 		}
+		fr.privLog = func() []sim.PrivLine { return append([]sim.PrivLine(nil), dev.Log...) }
 		if c.Op == "netcmd" {
 			first = func() (string, error) { return sendCmd(c.Cmd) }
 			calls = []string{fmt.Sprintf("cmd|%s|", hx([]byte(c.Cmd)))}
+		} else if c.Op == "deacquire" {
+			// an earlier command succeeded (the cached level is the default desired level and the device
+			// is there); the operation under fault then LEAVES that level
+			tr.Mark('C')
+			pre, e := sendCmd("show pre")
+			if e != nil {
+				fr.crashed = "pre-command: " + e.Error()
+				return fr
+			}
+			fr.preOut = "ok:" + hx([]byte(pre))
+			first = func() (string, error) { return "", d.AcquirePriv("exec") }
+			calls = []string{fmt.Sprintf("cmd|%s|", hx([]byte("show pre"))), "acq|" + hx([]byte("exec"))}
 		} else {
 			first = func() (string, error) { return "", d.AcquirePriv("privilege-exec") }
 			calls = []string{"acq|" + hx([]byte("privilege-exec"))}
@@ -286,7 +301,11 @@ func execFault(c *faultCase, fault bool, k int) *faultRun {
 		case "interactive":
 			dev = &sim.ScriptDevice{Steps: [][]byte{[]byte("Proceed? [y/n] Password: "), []byte("done\r\nrouter#"), []byte("\r\nnext output\r\nrouter#")}, EchoInput: true}
 		default:
-			dev = &sim.CLIDevice{Prompt: []byte("router#"), Trail: []byte(" "), Outputs: [][][]byte{sim.Atoms([]byte(c.Out)), sim.Atoms([]byte("second output"))}}
+			outs := [][][]byte{sim.Atoms([]byte(c.Out)), sim.Atoms([]byte("second output"))}
+			if c.Op == "cmds" {
+				outs = [][][]byte{sim.Atoms([]byte(c.Out)), sim.Atoms([]byte("detail output")), sim.Atoms([]byte("last output")), sim.Atoms([]byte("second output"))}
+			}
+			dev = &sim.CLIDevice{Prompt: []byte("router#"), Trail: []byte(" "), Outputs: outs}
 		}
 		tr = sim.NewTransport(dev)
 		d, err := newGeneric(tr, options.WithReadDelay(20*time.Microsecond), options.WithTimeoutOps(connTimeout))
@@ -320,6 +339,17 @@ func execFault(c *faultCase, fault bool, k int) *faultRun {
 			return r.Result, nil
 		}
 		switch c.Op {
+		case "cmds":
+			// a plural send: the fault may hit any of its commands (oracle only: the operation language
+			// of the model has the plural send at the network level only)
+			first = func() (string, error) {
+				m, e := d.SendCommands([]string{c.Cmd, c.Cmd + " detail", "show last"}, oo...)
+				if e != nil {
+					return "", e
+				}
+				return m.JoinedResult(), nil
+			}
+			calls = []string{"cmds"}
 		case "cmd":
 			first = func() (string, error) { return sendCmd(c.Cmd) }
 			calls = []string{fmt.Sprintf("in|%s|%s|%s", hx([]byte(c.Cmd)), flags, interim)}
@@ -405,6 +435,11 @@ func execFault(c *faultCase, fault bool, k int) *faultRun {
 	}
 	och := make(chan opRes, 1)
 	go func() {
+		defer func() {
+			if p := recover(); p != nil {
+				och <- opRes{"", fmt.Errorf("PANIC in the caller's goroutine: %v", p)}
+			}
+		}()
 		r, e := first()
 		och <- opRes{r, e}
 	}()
@@ -476,11 +511,14 @@ func execFault(c *faultCase, fault bool, k int) *faultRun {
 	for i := range fr.errs {
 		if fr.errs[i] != nil {
 			fr.outs = append(fr.outs, "err:"+errClass(fr.errs[i]))
-		} else if c.Op == "acquire" && i == 0 {
+		} else if (c.Op == "acquire" || c.Op == "deacquire") && i == 0 {
 			fr.outs = append(fr.outs, "ok:")
 		} else {
 			fr.outs = append(fr.outs, "ok:"+hx([]byte(fr.results[i])))
 		}
+	}
+	if fr.preOut != "" {
+		fr.outs = append([]string{fr.preOut}, fr.outs...)
 	}
 	logStr := tr.LogString()
 	fr.writes, _, _ = tr.Snapshot()
@@ -536,8 +574,8 @@ func runFaultCase(id string, c *faultCase) {
 	c.K = k
 	fr := execFault(c, true, k)
 	cs.Line = fr.line
-	if c.Fault == "writeerr" {
-		cs.Line = "" // write failures are outside the model (the operation language has no failing write): oracle only
+	if c.Fault == "writeerr" || c.Op == "cmds" {
+		cs.Line = "" // write failures / the generic plural send are outside the model's operation language: oracle only
 	}
 	cs.Obs = strings.Join(fr.outs, " ")
 	if fr.crashed != "" {
@@ -550,6 +588,14 @@ func runFaultCase(id string, c *faultCase) {
 		return
 	}
 	e0, e1 := fr.errs[0], fr.errs[1]
+	for i, e := range []error{e0, e1} {
+		if e != nil && strings.HasPrefix(e.Error(), "PANIC") {
+			cs.Oracle = fmt.Sprintf("%s after byte %d of %d: operation %d: %v", c.Fault, k, L, i, e)
+			cs.Sig = c.Prop + ":panic"
+			emit(cs)
+			return
+		}
+	}
 	connTimeout := faultConnTimeout
 	if c.Timeout == "perop" {
 		connTimeout = faultOpTimeout
@@ -573,6 +619,22 @@ func runFaultCase(id string, c *faultCase) {
 		case e0 != nil && (fr.elapsed < connTimeout*9/10 || fr.elapsed > connTimeout*time.Duration(multiplier(c))+250*time.Millisecond):
 			cs.Oracle = fmt.Sprintf("stall after byte %d of %d: returned after %v, configured timeout %v", k, L, fr.elapsed, connTimeout)
 			cs.Sig = "C05:timing"
+		}
+		// recovery clause for a privilege change: the de-escalate command's return was sent (get-prompt's
+		// return, the command, its return), the device acted on it and went silent; once it has caught up
+		// the next command must still run at the default desired level
+		if cs.Oracle == "" && e0 != nil && c.Op == "deacquire" && fr.w1-fr.w0 >= 3 && fr.privLog != nil {
+			if e1 != nil {
+				cs.Oracle = fmt.Sprintf("after the timed-out privilege change (stall at %d of %d) the next command failed: %v", k, L, e1)
+				cs.Sig = "C05:recovery-error"
+			} else {
+				for _, l := range fr.privLog() {
+					if l.Line == c.Next && l.Mode != "privilege-exec" {
+						cs.Oracle = fmt.Sprintf("after the timed-out privilege change (stall at %d of %d) the next command %q was executed at level %s, not at the default desired level", k, L, c.Next, l.Mode)
+						cs.Sig = "C05:recovery-wrong-level"
+					}
+				}
+			}
 		}
 		// recovery clause: stalls that begin after the command's return was sent
 		returnSent := fr.w1-fr.w0 >= 2 && (c.Op == "cmd")
